@@ -401,6 +401,48 @@ def userSyncDef (ctx : Ctx) (cfg : DomCfg) (ins : List Nat) (out : Nat) (e : Exp
     trig := trigRun ctx t
     fire := fun l => l }
 
+/-- `ctx.set(out[lo:hi], value)` from a process, for an unsigned `out` and `lo ≤ hi ≤ len(out)`:
+`_eval_assign_inner` reads `next`, replaces the bits `lo..hi-1` and writes the whole value back, i.e. the masked
+update `(next & ~mask) | ((value << lo) & mask)` with `mask = (1 << hi) - (1 << lo)` -/
+def setPartUpd (out lo hi : Nat) (v : Int) : Update := ⟨out, pyShl v lo, 2 ^ hi - 2 ^ lo⟩
+
+/-- the synchronous process form driving only the bits `lo..hi-1` of an unsigned signal:
+`async for clk_edge, rst, *values in ctx.tick(d).sample(*ins):`
+`if rst: ctx.set(out[lo:hi], out.init >> lo) elif clk_edge: ctx.set(out[lo:hi], e(values))` -/
+def userSyncPartDef (ctx : Ctx) (cfg : DomCfg) (ins : List Nat) (out lo hi : Nat) (e : Expr) (init : Int) : ProcDef :=
+  let t : Trigger := tickTrigger cfg (ins.map .sig)
+  { run := fun l _ =>
+      let l' := { l with initial := false, waiting := true, hits := List.replicate t.length false }
+      if l.initial then { loc := l' }
+      else
+        let r := tickResult l.result
+        if r.getD 1 0 != 0 then { loc := l', updates := [setPartUpd out lo hi (pyShr init lo)] }
+        else if r.getD 0 0 != 0 then
+          { loc := l', updates := [setPartUpd out lo hi (evalTb ctx (sampleEnv ctx.length ins (r.drop 2)) e)] }
+        else { loc := l' }
+    wake := trigWake t
+    trig := trigRun ctx t
+    fire := fun l => l }
+
+/-- a process that first waits for a delay and only then enters the documented combinational form:
+`await ctx.delay(n)`, then `async for values in ctx.changed(*ins): ctx.set(out, e(values))`.
+Only a `changed()` loop that is the *first* thing a process awaits is woken once at time 0 to see the initial values
+(`first_await`); this loop is entered later, so its first iteration waits for a real change. -/
+def userLateCombDef (ctx : Ctx) (n : Nat) (ins : List Nat) (out : Nat) (e : Expr) : ProcDef :=
+  let t0 : Trigger := [.delay n]
+  let t : Trigger := ins.map .changed
+  { run := fun l _ =>
+      if l.initial then
+        { loc := { l with initial := false, waiting := true, hits := [false], pc := 0 }, timer := some n }
+      else if l.pc == 0 then
+        { loc := { l with pc := 1, waiting := true, hits := List.replicate t.length false } }
+      else
+        { loc := { l with waiting := true, hits := List.replicate t.length false },
+          updates := [setUpd ctx out (evalTb ctx (sampleEnv ctx.length ins l.result) e)] }
+    wake := fun l slot old new => if l.pc == 0 then l else trigWake t l slot old new
+    trig := fun l cur => if l.pc == 0 then trigRun ctx t0 l cur else trigRun ctx t l cur
+    fire := fun l => if l.pc == 0 then trigFire t0 l else l }
+
 /-! ## Testbench scripts -/
 
 inductive TbOp
@@ -532,6 +574,8 @@ inductive ProcKind
   | clock (slot phase period : Nat)
   | userComb (ins : List Nat) (out : Nat) (e : Expr)
   | userSync (d : Nat) (ins : List Nat) (out : Nat) (e : Expr)
+  | userSyncPart (d : Nat) (ins : List Nat) (out lo hi : Nat) (e : Expr)
+  | userLateComb (n : Nat) (ins : List Nat) (out : Nat) (e : Expr)
 deriving Inhabited
 
 def ProcKind.toDef (D : Design) : ProcKind → ProcDef
@@ -541,6 +585,9 @@ def ProcKind.toDef (D : Design) : ProcKind → ProcDef
   | .clock slot phase period => clockDef slot phase period
   | .userComb ins out e => userCombDef D.ctx ins out e
   | .userSync d ins out e => userSyncDef D.ctx (D.doms.getD d default) ins out e (D.inits.val out)
+  | .userSyncPart d ins out lo hi e =>
+    userSyncPartDef D.ctx (D.doms.getD d default) ins out lo hi e (D.inits.val out)
+  | .userLateComb n ins out e => userLateCombDef D.ctx n ins out e
 
 /-- `reset()` of each kind of process: which ones are runnable at time 0 -/
 def ProcKind.initLocal : ProcKind → Local
